@@ -164,6 +164,7 @@ def run(run: common.Run):
         run.sample(dict(case={k: case[k] for k in ('i', 'model', 'kernel', 'src_bands', 'ref_bands', 'selection', 'proc')},
                         matched=[list(sbs), list(rbs)], blocks_halvings=hv), 4)
     run.compare_lines(lay_cases, lay_lines, lay_impls)
+    r2_band_leg(run, tmp)
 
 
 def mask_lines(run, case, src, ref, sv, rv, multi, proc_ref, nb):
@@ -195,3 +196,54 @@ def mask_lines(run, case, src, ref, sv, rv, multi, proc_ref, nb):
         d = np.argwhere((got_full.astype(bool) != exp) & decided)
         run.fail(case, f'parameter mask differs from "both images valid on the processing grid" at {len(d)} pixels, e.g. '
                  f'{d[0].tolist()}', signature=dict(kind='param-mask'))
+
+
+def r2_band_leg(run, tmp):
+    """
+    The R2 band (band 2n + i) holds the R2 of the model the other two bands describe: 1 - RSS/TSS of `gain * source + offset`
+    against the reference over the jointly valid pixels of the kernel window - also where the window is only partly covered
+    (image edge, nodata holes).  Same-grid pairs (no resampling between the images), brute force in float64.
+    """
+    for k, model in enumerate(['gain', 'gain-blk-offset', 'gain-offset']):
+        rng = run.rng(f'r2band{k}')
+        H, W = rng.randint(14, 20), rng.randint(14, 20)
+        g = rasters.Grid(8 * 3000 + 8 * k, 8 * 4000, 8, 8, W, H)
+        s = np.array([[[rng.randint(20, 120) for _ in range(W)] for _ in range(H)]], float)
+        r = 0.5 * s + np.array([[[rng.randint(0, 40) for _ in range(W)] for _ in range(H)]], float)
+        sv = np.ones((H, W), bool)
+        sv[H // 2:H // 2 + 3, W // 3:W // 3 + 4] = False
+        sv[:, 0] = False
+        rv = np.ones((H, W), bool)
+        rv[2, W - 4:] = False
+        kh, kw = [(3, 5), (5, 3), (3, 3)][k]
+        pair = fusion.write_pair(tmp, f'c14r2{k}', g, g, s, r, sv, rv)
+        case = dict(i=700_000 + k, op='R2 band definition', model=model, kernel=(kh, kw), shape=(H, W))
+        try:
+            res = fusion.run_fuse(pair.src_path, pair.ref_path, tmp / 'c14r2_out.tif', model=model, kernel_shape=(kh, kw), param=True,
+                                  threads=1, model_config=dict(r2_inpaint_thresh=None))
+        except Exception as ex:
+            run.fail(case, f'fusion raised {type(ex).__name__}: {ex}', signature=dict(kind='raises'))
+            continue
+        run.evaluations += 1
+        run.hist['R2-band definition cases'] += 1
+        gain, off, r2 = (res.param[j].astype('float64') for j in range(3))
+        m = sv & rv
+        worst, where = 0.0, None
+        for rr in range(H):
+            for cc in range(W):
+                if not m[rr, cc] or not np.isfinite(r2[rr, cc]):
+                    continue
+                win = np.zeros((H, W), bool)
+                win[max(rr - kh // 2, 0):rr + kh // 2 + 1, max(cc - kw // 2, 0):cc + kw // 2 + 1] = True
+                win &= m
+                x, y = s[0][win], r[0][win]
+                tss = float(((y - y.mean()) ** 2).sum())
+                if tss < 1e-6 or len(x) < 2:
+                    continue
+                rss = float(((y - (gain[rr, cc] * x + off[rr, cc])) ** 2).sum())
+                d = abs((1 - rss / tss) - r2[rr, cc]) / max(1.0, abs(r2[rr, cc]))
+                if d > worst:
+                    worst, where = d, (rr, cc, 1 - rss / tss, float(r2[rr, cc]), int(win.sum()))
+        if worst > 5e-3:
+            run.fail(case, f'R2 band at {where[:2]} holds {where[3]:.4f}, the R2 of gain*source+offset over the {where[4]} jointly valid '
+                     f'pixels of its window is {where[2]:.4f}', signature=dict(kind='r2-band'))
